@@ -3,7 +3,8 @@
 // process (a fatal error or hang there is the answer "crash" / "hang").
 //
 // ops:   compile <expr>  =>  [instr …] | err | panic        (api.VerifCompileDump, hook)
-//        eval <expr>     =>  val <value> | err | panic | crash | hang
+//
+//	eval <expr>     =>  val <value> | err | panic | crash | hang
 package main
 
 import (
@@ -106,6 +107,10 @@ func generate(r *hx.Rand) (*lang.Node, map[string]bool, string) {
 			lang.C(lang.S("call1"), lang.S("mk"), lang.I(r.Intn(9))), lang.C(lang.S("call1"), lang.S("mk"), lang.I(r.Intn(9))))), lang.I(r.Intn(9)))
 		return lang.C(lang.L([]string{"mk"}, use), mk), g.Feat, ""
 	}
+	if r.Chance(1, 25) { // a call without arguments of any builtin, at the root or as an argument
+		p, feat := lang.NoargProgram(r, lang.AllBuiltins)
+		return p, feat, ""
+	}
 	p := g.Program()
 	mut := ""
 	if r.Chance(1, 4) {
@@ -145,7 +150,7 @@ func runProgram(c *hx.Ctx, req string, p *lang.Node, feat map[string]bool, mut s
 	}
 	c.Note(fmt.Sprintf("size:%02d-%02d", p.Size()/5*5, p.Size()/5*5+4))
 	c.Note("outcome:" + strings.Fields(outcome)[0])
-	if feat["lambda"] || feat["partial"] || feat["call-call"] || feat["many-params"] {
+	if feat["lambda"] || feat["partial"] || feat["call-call"] || feat["many-params"] || feat["noarg-any"] {
 		c.NonTrivial()
 	}
 }
@@ -156,8 +161,8 @@ func main() {
 	}
 	defer worker.Close()
 	hx.Main(hx.Family{
-		Name: "c21",
-		Rule: "programs (<= ~25 nodes) generated type-directed over int/pair/higher-order builtins: calls, lambdas (nested, shadowing, called directly, passed, returned), partial applications at several levels, calls of calls, pipelines; 1 in 4 gets one ill-typing edit (replace / drop / add / swap argument, unbound symbol, literal as function); templates for the MaxArgs boundary and for closures outliving their activation. non-trivial = contains a lambda, a partial application, a call of a call or >= 29 parameters; distinct = by hash of the program text",
+		Name:     "c21",
+		Rule:     "programs (<= ~25 nodes) generated type-directed over int/pair/higher-order builtins: calls, lambdas (nested, shadowing, called directly, passed, returned), partial applications at several levels, calls of calls, pipelines; 1 in 4 gets one ill-typing edit (replace / drop / add / swap argument, unbound symbol, literal as function); templates for the MaxArgs boundary and for closures outliving their activation. non-trivial = contains a lambda, a partial application, a call of a call or >= 29 parameters; distinct = by hash of the program text",
 		Quick:    4000,
 		Thorough: 60000,
 		Corpus: func(c *hx.Ctx) {
